@@ -273,7 +273,24 @@ func (o *opts) node(n ast.Node, sb *strings.Builder) {
 		w("(obj")
 		for _, p := range x.Properties {
 			w(" (prop")
-			recE(p.Key)
+			// a property name spelled like a keyword literal (`{true: 1}`, `{null: 0}`) is a name, whatever node the
+			// parser uses to hold it (ESTree: Identifier)
+			switch k := p.Key.(type) {
+			case *ast.BooleanLiteral:
+				if k != nil {
+					w(" (id ", k.Token.Literal, ")")
+				} else {
+					recE(p.Key)
+				}
+			case *ast.NullLiteral:
+				if k != nil {
+					w(" (id null)")
+				} else {
+					recE(p.Key)
+				}
+			default:
+				recE(p.Key)
+			}
 			recE(p.Value)
 			w(")")
 		}
